@@ -541,9 +541,32 @@ class _BE:
             else:
                 self.objs[self.obj_of(l, env)][:] = self.objs[rv[1]]
             return None
+        if nm in ('memcpy', '__builtin_memcpy', '__builtin___memcpy_chk') and len(n.get('a', [])) >= 3:
+            # a copy between memory and the object representation of a local integer: on the (big-endian) target of this parse the most significant byte comes first
+            def side(a):
+                a = strip_all(a)
+                while a['k'] == 'Cast':
+                    a = strip_all(a['e'])
+                if a['k'] == 'Un' and a.get('op') == '&':
+                    e = strip_all(a['e'])
+                    if e['k'] == 'Ref' and isinstance(env.get(e.get('id')), int) or (e['k'] == 'Ref' and e.get('id') not in env and e.get('dk') in ('Var', 'ParmVar')):
+                        return ('var', e['id'], self.width(e.get('ty')) // 8)
+                return ('mem', self.ev(a, env))
+            d_, s_ = side(n['a'][0]), side(n['a'][1])
+            cnt = self.ev(n['a'][2], env)
+            if d_[0] == 'var' and s_[0] == 'mem' and cnt == d_[2]:
+                env[d_[1]] = int.from_bytes(bytes(self.mem.get(s_[1] + j, 0xEE) for j in range(cnt)), 'big')
+                return None
+            if d_[0] == 'mem' and s_[0] == 'var' and cnt == s_[2]:
+                for j, b in enumerate((env[s_[1]] & ((1 << (8 * cnt)) - 1)).to_bytes(cnt, 'big')):
+                    self.mem[d_[1] + j] = b
+                return None
+            if d_[0] == 'mem' and s_[0] == 'mem' and isinstance(cnt, int):
+                for j in range(cnt):
+                    self.mem[d_[1] + j] = self.mem.get(s_[1] + j, 0xEE)
+                return None
+            raise AnalysisBroken('PORT-ENDIAN: memcpy of %s' % show(n)[:60])
         args = [self.ev(a, env) for a in n.get('a', [])]
-        if nm == 'memcpy':
-            raise AnalysisBroken('PORT-ENDIAN: memcpy in a byte-order branch (native-order copy)')
         fn_ = n.get('fn') or nm
         if not self.F.has_func(fn_):
             raise AnalysisBroken('PORT-ENDIAN: call of %s' % fn_)
@@ -591,6 +614,8 @@ class _BE:
                         if isinstance(v, int) and '*' not in ty:
                             v &= (1 << self.width(ty)) - 1
                         env[d['id']] = v
+                    elif '*' not in ty:
+                        env[d['id']] = 0xEEEEEEEEEEEEEEEE & ((1 << self.width(ty)) - 1)      # uninitialised
                 continue
             if k == 'Return':
                 return ('ret', self.ev(st['e'], env) if astq.is_node(st.get('e')) else None)
@@ -663,33 +688,46 @@ class _BE:
 def rule_endian(ctx, R):
     R.rule('PORT-ENDIAN', 'on a big-endian target the portable load / store helpers still produce and consume the little-endian memory image the specification defines: load32 / load64 / store32 / store64 of blake2/endian.h byte by byte, '
            'rx_load_vec_i128 / rx_store_vec_i128 lane by lane (32-bit lanes at offsets 0, 4, 8, 12), rx_load_vec_f128 / rx_store_vec_f128 (64-bit lanes at 0, 8) and the two casts between them; decided by a byte-accurate '
-           'evaluation of the helper bodies as parsed for a big-endian target, with unions laid out in native byte order', min_instances=10)
-    F = astq.Facts(ctx, 'K6')
-    R.saw(config='K6')
-    img = {j: j + 1 for j in range(16)}
-    L = [int.from_bytes(bytes(j + 1 for j in range(4 * i, 4 * i + 4)), 'little') for i in range(4)]
-    Q = [int.from_bytes(bytes(j + 1 for j in range(8 * i, 8 * i + 8)), 'little') for i in range(2)]
+           'evaluation of the helper bodies as parsed for big-endian targets (s390x for everything; aarch64_be, powerpc64, mips64, sparc64 for the scalar helpers, so that the byte-order predicate of endian.h is exercised as well), with unions and memcpy of integers laid out in native byte order', min_instances=30)
     BASE = 0x1000
 
     def where(f):
         return '%s:%d' % (f['file'], f['line'])
 
-    # scalar helpers
-    for nm, nb in (('store32', 4), ('store64', 8)):
-        f = F.func(nm)
-        R.saw(fn=f['q'])
-        be = _BE(F)
-        be.run(f, [BASE, int.from_bytes(bytes(range(1, nb + 1)), 'little')])
-        got = [be.mem.get(BASE + j) for j in range(nb)]
-        R.check(got == list(range(1, nb + 1)) and len(be.mem) == nb, nm, where(f), expected='byte k of the value at offset k', found=got)
-    for nm, nb in (('load32', 4), ('load64', 8)):
-        f = F.func(nm)
-        R.saw(fn=f['q'])
-        be = _BE(F)
-        be.mem = {BASE + j: j + 1 for j in range(nb)}
-        got = be.run(f, [BASE])
-        want = int.from_bytes(bytes(range(1, nb + 1)), 'little')
-        R.check(got == want, nm, where(f), expected='%#x' % want, found='%#x' % got if isinstance(got, int) else got)
+    def scalars(F, tag):
+        for nm, nb in (('store32', 4), ('store64', 8), ('store48', 6)):
+            if not F.has_func(nm):
+                if nm == 'store48':
+                    continue
+                raise AnalysisBroken('PORT-ENDIAN: %s not found in configuration %s' % (nm, tag))
+            f = F.func(nm)
+            R.saw(fn=f['q'])
+            be = _BE(F)
+            be.run(f, [BASE, int.from_bytes(bytes(range(1, nb + 1)), 'little')])
+            got = [be.mem.get(BASE + j) for j in range(nb)]
+            R.check(got == list(range(1, nb + 1)) and len(be.mem) == nb, '%s %s' % (tag, nm), where(f), expected='byte k of the value at offset k', found=got)
+        for nm, nb in (('load32', 4), ('load64', 8), ('load48', 6)):
+            if not F.has_func(nm):
+                if nm == 'load48':
+                    continue
+                raise AnalysisBroken('PORT-ENDIAN: %s not found in configuration %s' % (nm, tag))
+            f = F.func(nm)
+            R.saw(fn=f['q'])
+            be = _BE(F)
+            be.mem = {BASE + j: j + 1 for j in range(nb)}
+            got = be.run(f, [BASE])
+            want = int.from_bytes(bytes(range(1, nb + 1)), 'little')
+            R.check(got == want, '%s %s' % (tag, nm), where(f), expected='%#x' % want, found='%#x' % got if isinstance(got, int) else got)
+    # the scalar helpers under every big-endian target that parses here: whichever branch the byte-order predicate of endian.h selects there must be a correct one
+    for cfg, tag in (('K7a', 'aarch64_be'), ('K7b', 'powerpc64'), ('K7c', 'mips64'), ('K7d', 'sparc64')):
+        R.saw(config=cfg)
+        scalars(astq.Facts(ctx, cfg), tag)
+    F = astq.Facts(ctx, 'K6')
+    R.saw(config='K6')
+    img = {j: j + 1 for j in range(16)}
+    L = [int.from_bytes(bytes(j + 1 for j in range(4 * i, 4 * i + 4)), 'little') for i in range(4)]
+    Q = [int.from_bytes(bytes(j + 1 for j in range(8 * i, 8 * i + 8)), 'little') for i in range(2)]
+    scalars(F, 's390x')
     # 128-bit integer vectors
     f = F.func('rx_store_vec_i128')
     R.saw(fn=f['q'])
